@@ -18,6 +18,8 @@ pub struct LoopSpec {
     pub invariant_except_break: Vec<Clause>,
     pub ensures: Vec<Clause>,
     pub decreases: Option<String>,
+    pub collects: Option<String>,
+    pub at: Option<String>, // header text of the loop this contract belongs to (whitespace-insensitive); otherwise by ordinal // type of the vector built by an expanded `iter().map(..).collect()`
     pub body: Vec<GhostStmt>,
     pub init: Vec<GhostStmt>,
 }
@@ -99,6 +101,7 @@ pub struct Unit {
     pub pathrename: Vec<(String, String)>,
     pub methodval: Vec<(String, String)>,
     pub inlinecall: Vec<String>,
+    pub optionmap: bool,
     pub constfn: Vec<(String, String)>,
     pub argcall: Vec<(String, String, String)>,
     pub strlits: bool,
@@ -244,6 +247,8 @@ fn parse_fn(head: &str, body: &[String]) -> FnSpec {
                         "invariant_except_break" => ls.invariant_except_break.extend(parse_clauses(&sub2, v2)),
                         "ensures" => ls.ensures.extend(parse_clauses(&sub2, v2)),
                         "decreases" => ls.decreases = Some(r2),
+                        "collects" => ls.collects = Some(r2),
+                        "at" => ls.at = Some(r2.chars().filter(|c| !c.is_whitespace()).collect()),
                         "body" => ls.body.push(GhostStmt { text: block_text(&sub2), variants: v2 }),
                         "init" => ls.init.push(GhostStmt { text: block_text(&sub2), variants: v2 }),
                         _ => panic!("unknown loop sub-directive {w2}"),
@@ -343,6 +348,7 @@ pub fn parse_unit(text: &str) -> Unit {
             "methodfn" => u.methodfn.push((words[0].clone(), words[1].clone())),
             "pathrename" => u.pathrename.push((words[0].clone(), words[1].clone())),
             "strlits" => u.strlits = true,
+            "optionmap" => u.optionmap = true,
             "inlinecall" => u.inlinecall.extend(words),
             "constfn" => u.constfn.push((words[0].clone(), words[1].clone())),
             "argcall" => u.argcall.push((words[0].clone(), words[1].clone(), words[2].clone())),
